@@ -392,6 +392,74 @@ pub fn run(tier: Tier, seed: u64) -> i32 {
     }
     report.count("multi_bit_alteration_cases", multi_cases);
     total += multi_cases;
+    // confusable credentials: typed pairs that a too-generous normalisation would fold onto the registered pair
+    // (blank runs collapsed, blanks trimmed or dropped, a character doubled or dropped, user and password swapped);
+    // whatever the reference normalisation keeps apart is "another password or username" and must be refused
+    {
+        let regs: Vec<(&str, &str)> = vec![("alice", "open sesame"), ("a  b", "c  d"), (" x", "y "), ("bob", "pass  word 1"), ("A", "A"), ("q", "qq"), ("user name", "  "), ("dot.", ".dot"), ("0", "00")];
+        let mut n_conf = 0u64;
+        let mut n_same = 0u64;
+        for (ri, (ru, rp)) in regs.iter().enumerate() {
+            let confusable = |s: &str| -> Vec<String> {
+                let mut v: Vec<String> = vec![
+                    s.to_string(),
+                    format!("{s} "),
+                    format!(" {s}"),
+                    s.trim().to_string(),
+                    s.trim_start().to_string(),
+                    s.trim_end().to_string(),
+                    s.replace("  ", " "),
+                    s.replace(' ', "  "),
+                    s.replace(' ', ""),
+                    s.replace(' ', "_"),
+                    format!("{s}{}", s.chars().last().unwrap()),
+                    s[..s.len() - 1].to_string(),
+                    s.replace('.', ""),
+                    s.replace('0', ""),
+                    s.to_ascii_uppercase(),
+                ];
+                v.retain(|x| !x.is_empty() && x.len() <= 16);
+                v.sort();
+                v.dedup();
+                v
+            };
+            let (run_, rpn) = (refmodel::misc::normalize(ru).unwrap(), refmodel::misc::normalize(rp).unwrap());
+            let mut typed: Vec<(String, String)> = vec![(rp.to_string(), ru.to_string())];
+            for tu in confusable(ru) {
+                typed.push((tu, rp.to_string()));
+            }
+            for tp in confusable(rp) {
+                typed.push((ru.to_string(), tp));
+            }
+            for (ti, (tu, tp)) in typed.iter().enumerate() {
+                let same = refmodel::misc::normalize(tu).unwrap() == run_ && refmodel::misc::normalize(tp).unwrap() == rpn;
+                let li = LoginInput {
+                    reg_user: ru,
+                    reg_pass: rp,
+                    typed_user: tu,
+                    typed_pass: tp,
+                    salt: refmodel::ctr_array::<32>(seed, &format!("c02-conf-salt-{ri}")),
+                    b: refmodel::ctr_array::<32>(seed, &format!("c02-conf-b-{ri}-{ti}")),
+                    a: refmodel::ctr_array::<32>(seed, &format!("c02-conf-a-{ri}-{ti}")),
+                    storage_roundtrip: ti % 2 == 1,
+                };
+                let r = real_login(&li);
+                let replay = json!({"registered": [ru, rp], "typed": [tu, tp], "salt": hex(&li.salt), "b": hex(&li.b), "a": hex(&li.a)});
+                match (same, r) {
+                    (true, Ok(_)) => n_same += 1,
+                    (false, Err(LoginFail::Refused("into_server", _))) => n_conf += 1,
+                    (false, Ok(_)) => report.violation(Violation { signature: "C02|server-accepts-confusable-credentials".into(), scenario: "confusable-credentials".into(), replay, detail: json!({"message": format!("the server accepted a client that typed {tu:?} / {tp:?} for the account registered as {ru:?} / {rp:?}: these are different credentials")}) }),
+                    (true, Err(e)) => report.violation(Violation { signature: "C02|right-credentials-refused".into(), scenario: "confusable-credentials".into(), replay, detail: json!({"message": format!("typed credentials equal to the registered ones up to letter case were refused: {e:?}")}) }),
+                    (false, Err(LoginFail::Rng(m))) => mc::util::machinery_error(&format!("C02 confusable credentials: {m}")),
+                    (false, Err(e)) => report.violation(Violation { signature: "C02|wrong-credentials-not-refused-by-the-server".into(), scenario: "confusable-credentials".into(), replay, detail: json!({"message": format!("a client with different credentials did not end in the server's refusal but in {e:?}")}) }),
+                }
+            }
+        }
+        report.count("confusable_credential_logins_refused", n_conf);
+        report.count("confusable_credential_logins_same_account", n_same);
+        report.require("confusable_credential_logins_refused");
+        total += n_conf + n_same;
+    }
     for (o, n) in &outcome_totals {
         report.count(&format!("outcome_{o}"), *n);
     }
